@@ -13,7 +13,7 @@ import (
 
 // Attempt describes how a simulated host treats one HTTP request attempt.
 type Attempt struct {
-	Kind  string        // "ok", "connerr", "status", "hang", "garbage"
+	Kind  string        // "ok", "connerr", "status", "hang", "garbage", "cutbody"
 	Code  int           // for "status"
 	Delay time.Duration // simulated processing / network time before the reply
 }
@@ -131,6 +131,10 @@ func (t *Transport) RoundTrip(req *http.Request) (*http.Response, error) {
 	case "status":
 		return &http.Response{StatusCode: a.Code, Status: http.StatusText(a.Code), Header: http.Header{"Content-Type": {"application/json"}},
 			Body: io.NopCloser(bytes.NewReader([]byte(`{"title":"` + http.StatusText(a.Code) + `","status":` + fmt.Sprint(a.Code) + `}`))), Request: req}, nil
+	case "cutbody":
+		half := hs.Body[:len(hs.Body)/2]
+		return &http.Response{StatusCode: 200, Status: "OK", Header: http.Header{"Content-Type": {"application/json"}},
+			Body: io.NopCloser(io.MultiReader(bytes.NewReader(half), errReader{})), ContentLength: int64(len(hs.Body)), Request: req}, nil
 	case "garbage":
 		return &http.Response{StatusCode: 200, Status: "OK", Header: http.Header{"Content-Type": {"application/json"}},
 			Body: io.NopCloser(bytes.NewReader([]byte(`{"rows": [ {"counters": `))), Request: req}, nil
@@ -138,3 +142,8 @@ func (t *Transport) RoundTrip(req *http.Request) (*http.Response, error) {
 	return &http.Response{StatusCode: 200, Status: "OK", Header: http.Header{"Content-Type": {"application/json"}},
 		Body: io.NopCloser(bytes.NewReader(hs.Body)), ContentLength: int64(len(hs.Body)), Request: req}, nil
 }
+
+// errReader fails like a connection that is reset while the body is being read.
+type errReader struct{}
+
+func (errReader) Read([]byte) (int, error) { return 0, io.ErrUnexpectedEOF }
